@@ -68,7 +68,12 @@ def mutual_dependency(nets):
 
 def all_cases(ctx):
     from cgv.props.C03 import x_cases
-    cs = [textbook()] + F.f_shape() + F.f_unit(5) + x_cases() + F.reordered([textbook()] + F.f_shape()) + F.f_rand(ctx.seed, 30 if ctx.quick else 300)
+    wide = [c for c in F.f_unit(8, pairs=False) if c[0][2] >= 6]
+    wide_shared = []
+    for t in ("and", "nor", "xor"):
+        ins = [(f"i{j}", "input", []) for j in range(7)]
+        wide_shared.append((("wide_shared", t), mkspec(f"wide_shared_{t}", ins + [("m", "or", ["i0", "i1"]), ("w", t, ["m", "i1", "i2", "i3", "i4", "i5"]), ("v", "and", ["m", "i6"]), ("o", "xor", ["w", "v"], True)])))
+    cs = [textbook()] + F.f_shape() + F.f_unit(5) + wide + wide_shared + x_cases() + F.reordered([textbook()] + F.f_shape()) + F.f_rand(ctx.seed, 30 if ctx.quick else 300)
     if not ctx.quick:
         import random
         cs += [(("rand24", ctx.seed, i), F.rand_dag(random.Random(f"c17-24-{ctx.seed}-{i}"), n_in=5, n_gates=24, max_arity=3, name=f"r24_{i}")) for i in range(40)]
